@@ -116,7 +116,38 @@ func (h *Handler) HandleMessage(msg stanza.Message, r xmlstream.TokenReadEncoder
 			return err
 		}
 	}
-	iter.msgC <- &tokenSliceReader{toks: toks}
+	// We hold trackedM, which Iter.Close needs too: if the consumer closes the
+	// iterator instead of taking this message, give up the hand-off (Close tells
+	// us through iter.closing before it asks for the lock) and treat the
+	// message like any other result of a query that is not tracked any more.
+	select {
+	case iter.msgC <- &tokenSliceReader{toks: toks}:
+		return nil
+	case <-iter.closing:
+	}
+	if h.inner != nil {
+		// As above the inner handler gets the result element only.
+		end, depth := len(toks), 0
+		for n, t := range toks[1:] {
+			switch t.(type) {
+			case xml.StartElement:
+				depth++
+			case xml.EndElement:
+				depth--
+			}
+			if depth == 0 {
+				end = n + 2
+				break
+			}
+		}
+		return h.inner.HandleMessage(msg, struct {
+			xml.TokenReader
+			xmlstream.Encoder
+		}{
+			TokenReader: &tokenSliceReader{toks: toks[1:end]},
+			Encoder:     r,
+		})
+	}
 	return nil
 }
 
@@ -159,9 +190,10 @@ func (h *Handler) FetchIQ(ctx context.Context, filter Query, iq stanza.IQ, s *xm
 	iq.Type = stanza.SetIQ
 	msgC := make(chan xml.TokenReader)
 	iter := &Iter{
-		msgC: msgC,
-		h:    h,
-		id:   filter.ID,
+		msgC:    msgC,
+		h:       h,
+		id:      filter.ID,
+		closing: make(chan struct{}),
 	}
 
 	go func() {
